@@ -355,6 +355,9 @@ def replay_schedule(spec):
         else:
             data = pd.DataFrame({'VX': 1.0, 'VY': 0.0, 'VZ': 0.1}, index=times)
             m = measurements.BodyVelocity(data, 0.5)
+        # the rows of a measurement table need not be in time order (logs concatenated out of
+        # order, newest first): the table is looked up by time stamp
+        m.data = m.data.iloc[::-1]
         orig = m.compute_matrices
 
         def rec(time, pva, em, _orig=orig, _name=name, _times=times):
@@ -412,10 +415,33 @@ def replay_schedule(spec):
         orig_int = filters.strapdown.Integrator
 
         class RecIntegrator(orig_int):
+            # a small initial capacity: the few rows of a replay cross buffer-growth boundaries, and a
+            # prediction to a measurement epoch happens with the buffer exactly full
+            INITIAL_SIZE = 2
+
             def integrate(self, increments):
                 trace['batches'].append(len(increments))
+                last_batch['theta'] = np.asarray(increments[['theta_x', 'theta_y', 'theta_z']].values, dtype=float).sum(axis=0)
+                last_batch['dv'] = np.asarray(increments[['dv_x', 'dv_y', 'dv_z']].values, dtype=float).sum(axis=0)
+                last_batch['dt'] = float(np.asarray(increments['dt'].values, dtype=float).sum())
                 return orig_int.integrate(self, increments)
         filters.strapdown.Integrator = RecIntegrator
+        # the averaged readings handed to the covariance propagation are the sums of the batch just
+        # integrated divided by the LENGTH of that batch (they scale the scale/misalignment columns)
+        last_batch = {}
+        orig_prop = filters._compute_error_propagation_matrices
+
+        def rec_prop(pva, gyro, accel, time_delta, *a, **k):
+            if gyro is not None and last_batch:
+                for nm_, got_, sum_ in (('gyro', gyro, last_batch['theta']), ('accel', accel, last_batch['dv'])):
+                    want_ = sum_ / last_batch['dt']
+                    if got_ is not None and not np.allclose(np.asarray(got_, dtype=float), want_, rtol=1e-9, atol=1e-15):
+                        failed.append('averaged %s readings of a propagation step (%s) are not the sum of the integrated batch divided by its length %.6g (%s)' % (
+                            nm_, np.asarray(got_, dtype=float).tolist(), last_batch['dt'], want_.tolist()))
+                if abs(float(time_delta) - last_batch['dt']) > 1e-12 * max(1.0, abs(last_batch['dt'])):
+                    failed.append('propagation interval %.17g differs from the length of the integrated batch %.17g' % (float(time_delta), last_batch['dt']))
+            return orig_prop(pva, gyro, accel, time_delta, *a, **k)
+        filters._compute_error_propagation_matrices = rec_prop
         try:
             result = filters.run_feedback_filter(pva0, 10.0, 1.0, 1.0, 1.0, inc, gyro_model=gm, accel_model=am,
                                                  measurements=meas, with_altitude=wa, **kw)
@@ -423,6 +449,7 @@ def replay_schedule(spec):
             failed.append('exception %s: %s' % (type(e).__name__, str(e)[:200]))
         finally:
             filters.strapdown.Integrator = orig_int
+            filters._compute_error_propagation_matrices = orig_prop
         if result is not None:
             ti = np.asarray(result.trajectory.index, dtype=float)
             if len(ti) != len(stamps) or not np.array_equal(ti, stamps):
